@@ -77,7 +77,7 @@ func (unpacker *RtpUnpackerAac) TryUnpackOne(list *RtpPacketList) (unpackedFlag 
 			// one complete access unit
 			var outPkt base.AvPacket
 			outPkt.PayloadType = unpacker.payloadType
-			outPkt.Timestamp = int64(p.Packet.Header.Timestamp / uint32(unpacker.clockRate/1000))
+			outPkt.Timestamp = rtpTimestamp2Ms(p.Packet.Header.Timestamp, unpacker.clockRate)
 			outPkt.Payload = b[aus[0].pos : aus[0].pos+aus[0].size]
 			unpacker.onAvPacket(outPkt)
 
@@ -134,7 +134,7 @@ func (unpacker *RtpUnpackerAac) TryUnpackOne(list *RtpPacketList) (unpackedFlag 
 			} else if cacheSize == totalSize {
 				var outPkt base.AvPacket
 				outPkt.PayloadType = unpacker.payloadType
-				outPkt.Timestamp = int64(p.Packet.Header.Timestamp / uint32(unpacker.clockRate/1000))
+				outPkt.Timestamp = rtpTimestamp2Ms(p.Packet.Header.Timestamp, unpacker.clockRate)
 				for _, a := range as {
 					outPkt.Payload = append(outPkt.Payload, a...)
 				}
@@ -156,9 +156,15 @@ func (unpacker *RtpUnpackerAac) TryUnpackOne(list *RtpPacketList) (unpackedFlag 
 	for i := range aus {
 		var outPkt base.AvPacket
 		outPkt.PayloadType = unpacker.payloadType
-		outPkt.Timestamp = int64(p.Packet.Header.Timestamp / uint32(unpacker.clockRate/1000))
+		outPkt.Timestamp = rtpTimestamp2Ms(p.Packet.Header.Timestamp, unpacker.clockRate)
 		// TODO chef: 这里1024的含义
-		outPkt.Timestamp += int64(uint32(i * (1024 * 1000) / unpacker.clockRate))
+		if unpacker.clockRate > 0 {
+			outPkt.Timestamp += int64(uint32(i * (1024 * 1000) / unpacker.clockRate))
+		}
+		if uint64(aus[i].pos)+uint64(aus[i].size) > uint64(len(b)) {
+			Log.Errorf("au out of range. pos=%d, size=%d, len=%d", aus[i].pos, aus[i].size, len(b))
+			break
+		}
 		outPkt.Payload = b[aus[i].pos : aus[i].pos+aus[i].size]
 		unpacker.onAvPacket(outPkt)
 	}
@@ -176,6 +182,10 @@ type au struct {
 func parseAu(b []byte) (ret []au) {
 	// TODO(chef): [fix] 解析b时，没有判断长度有效性 202207
 
+	if len(b) < 2 {
+		return nil
+	}
+
 	// AU Header Section
 	var auHeadersLength uint32
 	auHeadersLength = uint32(b[0])<<8 + uint32(b[1])
@@ -187,6 +197,11 @@ func parseAu(b []byte) (ret []au) {
 
 	pauh := uint32(2)                  // AU Header pos
 	pau := uint32(2) + auHeadersLength // AU pos
+
+	// AU Header Section不能超出包体
+	if uint64(pau) > uint64(len(b)) {
+		return nil
+	}
 
 	for i := uint32(0); i < nbAuHeaders; i++ {
 		// TODO chef: auSize和auIndex所在的位数是写死的13bit，3bit，标准的做法应该从外部传入，比如从sdp中获取后传入
